@@ -41,6 +41,7 @@ type pExec struct {
 	Results map[string]int64 `json:"results"`
 	Out     int64            `json:"out"`
 	Echo    int64            `json:"echo"`
+	Runs    int64            `json:"runs"` // rule executions started for this request
 	Start   int64            `json:"start"` // logical clock at call
 	End     int64            `json:"end"`   // logical clock at return
 	Method  string           `json:"method,omitempty"`
@@ -102,7 +103,7 @@ func pRuleText(r pRule, body string) string {
 	return fmt.Sprintf("rule \"%s\" \"v%d\" salience %d\nbegin\n%s if q.Quiet {\n  q.Echo = q.Id\n } else {\n  return %d * 1000 + q.Id\n }\nend\n", r.Name, r.Ver, r.Sal, body, r.Ver)
 }
 
-const stdBody = " q.Out = q.Id\n if q.Fire {\n  upd(q.Id)\n }\n park(q.Id)\n if q.Fail {\n  boom()\n }\n q.Echo = q.Id\n"
+const stdBody = " ran(q.Id)\n q.Out = q.Id\n if q.Fire {\n  upd(q.Id)\n }\n park(q.Id)\n if q.Fail {\n  boom()\n }\n q.Echo = q.Id\n"
 
 func pText(rules []pRule, body string) string {
 	var sb strings.Builder
@@ -189,6 +190,22 @@ type poolHost struct {
 	pool  *engine.GenginePool
 	max   int
 	upd   func(id int64) // what a rule's upd(id) call does
+	runs  sync.Map       // request id -> *int64: rule executions started on behalf of the request
+}
+
+// ran counts one rule execution of request id (called first thing in every rule body)
+func (h *poolHost) ran(id int64) {
+	v, _ := h.runs.LoadOrStore(id, new(int64))
+	atomic.AddInt64(v.(*int64), 1)
+}
+
+// takeRuns returns and forgets the number of rule executions counted for request id
+func (h *poolHost) takeRuns(id int64) int64 {
+	v, ok := h.runs.LoadAndDelete(id)
+	if !ok {
+		return 0
+	}
+	return atomic.LoadInt64(v.(*int64))
 }
 
 func (h *poolHost) tick() int64 { return atomic.AddInt64(&h.clock, 1) }
@@ -197,6 +214,7 @@ func (h *poolHost) apis() map[string]interface{} {
 	return map[string]interface{}{
 		"park": func(id int64) { h.pk.Load().(*parker).park(id) },
 		"boom": func() { panic("boom") },
+		"ran":  h.ran,
 		"upd": func(id int64) {
 			if h.upd != nil {
 				h.upd(id)
@@ -239,6 +257,7 @@ func (h *poolHost) request(id int64, fail bool, inject bool) pExec {
 	}()
 	ex.End = h.tick()
 	ex.Out, ex.Echo = q.Out, q.Echo
+	ex.Runs = h.takeRuns(id)
 	return ex
 }
 
@@ -265,6 +284,10 @@ func (h *poolHost) requestWith(how string, q *pReq, names []string) pExec {
 			e, m = h.pool.ExecuteRulesWithSpecifiedEM("", nil, "q", q)
 		case "selected-none":
 			e, m = h.pool.ExecuteSelectedRules(map[string]interface{}{"q": q}, []string{"nosuch"})
+		case "dag-empty":
+			e, m = h.pool.ExecuteDAGModel([][]string{}, map[string]interface{}{"q": q})
+		case "dag-unknown":
+			e, m = h.pool.ExecuteDAGModel([][]string{{"nosuch"}, {}, {"nosuch2", "nosuch"}}, map[string]interface{}{"q": q})
 		default:
 			data := map[string]interface{}{"q": q}
 			n := len(names)
@@ -302,6 +325,7 @@ func (h *poolHost) requestWith(how string, q *pReq, names []string) pExec {
 	}()
 	ex.End = h.tick()
 	ex.Out, ex.Echo = q.Out, q.Echo
+	ex.Runs = h.takeRuns(id)
 	return ex
 }
 
@@ -764,6 +788,8 @@ func runPoolCase(c *poolCase) {
 			c.Probes = append(c.Probes, pr)
 			sel := h.requestVia("selected-none", int64(400+k))
 			c.Probes = append(c.Probes, sel)
+			// a DAG without layers / with unknown names only runs nothing: nobody's results may come back
+			c.Probes = append(c.Probes, h.requestVia([]string{"dag-empty", "dag-unknown"}[k%2], int64(600+k)))
 		}
 		// more traffic, then the result maps handed out earlier must be unchanged
 		h.round(ids(60, int(c.Max)), nil, 5*time.Second)
